@@ -134,10 +134,13 @@ matrices caught by luck at the default seed were made robust in the third sessio
 `r4-c11-m1`, `r4-c11-m3`, `r6-c18-m1`, `r8-c19-m3`): every time the simulator's stream layout
 changes, marginal detections move, which is why the matrix is re-run after every change of the
 machinery. After the last session's extensions (which changed the C10, C11 and C14 generators for
-a fifth of their single-caller scenarios) the entries of C10, C11, C14 and of round 11 were
-re-run; the C12, C13, C18 and C19 entries of the earlier rounds are from the matrix before (their
-generators only GAINED scenarios since: positional variants, failed-call histories, concurrent
-writers; C19 also stamps 12 % of its bases with a future time instead of the real one).
+a fifth of their single-caller scenarios) the re-run of the C10, C11 and C14 entries got as far as
+the session's time allowed: the 12 entries of round 11 and 40 of the 90 earlier C10 / C11 / C14
+entries (rounds 1, 2 and 10 completely, rounds 3-7 in part; all 40 caught again), plus `r5-c13-m1`.
+The other 50 C10 / C11 / C14 entries and the C12, C13, C18 and C19 entries of the earlier rounds
+are from the matrix of the session before (the C12 generator is unchanged; those of C13, C18 and
+C19 only GAINED scenarios since: positional variants, failed-call histories, concurrent writers;
+C19 also stamps 12 % of its bases with a future time instead of the real one).
 <!-- SEEDED-TABLES-END -->"""
 s=open('/verif/DESIGN.md').read()
 if '<!-- SEEDED-TABLES-BEGIN -->' in s:
